@@ -168,7 +168,7 @@ func Run(c *gen.Ctx) error {
 	}
 	cf := &gen.CaseFile{Dir: c.OutDir, Prop: "C13", Kind: "defer", Requires: []string{"Base.Prelude", "Model.Exec", "Model.Defer", "Corr.Corr_C01", "Corr.Corr_C13"}, Type: "defer_case",
 		Checks: []gen.Check{{Label: "corr", Fn: "defer_corr"}, {Label: "mon", Fn: "defer_monitor"}, {Label: "monorphan", Fn: "defer_monitor_no_orphans"}, {Label: "monorder", Fn: "defer_monitor_modulo_order"},
-			{Label: "monmodel", Fn: "defer_monitor_on_model"}}, Shard: 50}
+			{Label: "monboth", Fn: "defer_monitor_modulo_order_no_orphans"}, {Label: "monmodel", Fn: "defer_monitor_on_model"}}, Shard: 50}
 	cf.Preamble = "Definition sch : schema := " + xeng.SchemaCoq(xeng.Schema) + "."
 	var cases []xeng.Case
 	for i, p := range plan {
